@@ -28,6 +28,11 @@ impl ConnProf {
     pub fn basic(clean: bool) -> Self {
         ConnProf { clean, ka: 0, sei: if clean { None } else { Some(100) }, rm: None, tam: None, mps: None }
     }
+    /// v5.0: Clean Start 0 without a Session Expiry Interval - resumes an existing session that then ends
+    /// with this connection (for v3.1.1 the same bytes as `basic(false)`)
+    pub fn resume_no_expiry() -> Self {
+        ConnProf { clean: false, ka: 0, sei: None, rm: None, tam: None, mps: None }
+    }
     pub fn ap(&self, ver: Ver) -> AP {
         let mut props = vec![];
         if ver == Ver::V5 {
@@ -65,14 +70,23 @@ pub struct AckProf {
     pub tam: Option<u16>,
     pub mps: Option<u32>,
     pub ska: Option<u16>,
+    /// v5.0 CONNACK Session Expiry Interval (the server overrides the client's value)
+    pub sei: Option<u32>,
 }
 impl AckProf {
     pub fn basic(sp: bool) -> Self {
-        AckProf { sp, ok: true, rm: None, tam: None, mps: None, ska: None }
+        AckProf { sp, ok: true, rm: None, tam: None, mps: None, ska: None, sei: None }
+    }
+    /// session present, but the server limits the session to this connection (Session Expiry Interval 0)
+    pub fn present_expiry_0() -> Self {
+        AckProf { sei: Some(0), ..AckProf::basic(true) }
     }
     pub fn ap(&self, ver: Ver) -> AP {
         let mut props = vec![];
         if ver == Ver::V5 && self.ok {
+            if let Some(v) = self.sei {
+                props.push(Prop { id: 0x11, val: PVal::U32(v) });
+            }
             if let Some(v) = self.rm {
                 props.push(Prop { id: 0x21, val: PVal::U16(v) });
             }
@@ -181,8 +195,8 @@ impl EpCfg {
             auto_replace: false,
             pingresp_to: 0,
             window: 2,
-            connects: vec![ConnProf::basic(true), ConnProf::basic(false)],
-            connacks: vec![AckProf::basic(false), AckProf::basic(true)],
+            connects: if ver == Some(Ver::V4) { vec![ConnProf::basic(true), ConnProf::basic(false)] } else { vec![ConnProf::basic(true), ConnProf::basic(false), ConnProf::resume_no_expiry()] },
+            connacks: if ver == Some(Ver::V4) { vec![AckProf::basic(false), AckProf::basic(true)] } else { vec![AckProf::basic(false), AckProf::basic(true), AckProf::present_expiry_0()] },
             alph: Alph::default(),
             groups: vec![],
             max_timer_fires: 2,
@@ -332,6 +346,8 @@ pub struct Mdl {
     pub as_client: bool,
     pub ver: Option<Ver>,
     pub persistent: bool,
+    /// the CONNECT of this connection asked for a clean start
+    pub clean_start: bool,
     pub link: LinkFacts,
     pub link_up: bool,
     pub close_pending: bool,
@@ -366,6 +382,7 @@ impl Mdl {
             as_client: role == RoleK::Client,
             ver,
             persistent: false,
+            clean_start: true,
             link: LinkFacts::default(),
             link_up: false,
             close_pending: false,
@@ -1100,8 +1117,8 @@ impl<P: Pid> World for Ep<P> {
             }
             Act::Connack(i) => {
                 let mut prof = self.cfg.connacks[*i as usize].clone();
-                // contract: the server application says "session present" exactly when it kept one
-                prof.sp = prof.sp && self.m.persistent;
+                // contract: the server application never says "session present" after a clean start
+                prof.sp = prof.sp && !self.m.clean_start;
                 let ap = prof.ap(ver);
                 calls.push(self.lib_send(&ap));
             }
@@ -1265,6 +1282,11 @@ pub fn act_sig(cfg: &EpCfg, a: &Act) -> String {
             let base = if base.starts_with("raw ") { "raw-prefix" } else { base };
             format!("PRaw({}{})", base, if mutated { " ~mutated" } else { "" })
         }
+        // a CONNACK that carries a Session Expiry Interval is its own class of input
+        Act::PConnack(i) | Act::Connack(i) => match cfg.connacks.get(*i as usize).and_then(|p| p.sei) {
+            Some(v) => format!("{}(sei={})", act_kind(a), if v == 0 { "0" } else { ">0" }),
+            None => act_kind(a),
+        },
         _ => act_kind(a),
     }
 }
